@@ -260,3 +260,45 @@ fn c01_search_tree_prefix_siblings() {
     kani::cover!(r.nseg == 2 && a && r.seg_is(1, b"c"));
     kani::cover!(r.nseg == 1 && ab);
 }
+
+// ---- Router::handle: the tree of the request's method is searched; HEAD is answered by the GET tree without a body (headers kept);
+// a miss runs the node's catch proc (404), not a handler
+struct Answer { status: u16 }
+impl FangProcCaller for Answer {
+    fn call_bite<'b>(&'b self, _req: &'b mut Request) -> Pin<Box<dyn SendOnNativeFuture<Response> + 'b>> {
+        let status = self.status;
+        Box::pin(async move {
+            let mut res = Response::new(match status { 200 => crate::Status::OK, 201 => crate::Status::Created, 202 => crate::Status::Accepted, 203 => crate::Status::NonAuthoritativeInformation,
+                                                   205 => crate::Status::ResetContent, 206 => crate::Status::PartialContent, _ => crate::Status::NotFound });
+            res.set_text("x");
+            res
+        })
+    }
+}
+fn tree(status: u16) -> Node {
+    // "" -> [ "/a" (handler answering `status`) ]; every miss is answered by the catch proc with 404
+    let kids = leak(vec![Node { pattern: Pattern::Static(b"/a"), proc: BoxedFPC::from_proc(Answer { status }), catch: BoxedFPC::from_proc(Answer { status: 404 }), children: &[] }]);
+    Node { pattern: Pattern::Static(b""), proc: BoxedFPC::from_proc(Answer { status: 404 }), catch: BoxedFPC::from_proc(Answer { status: 404 }), children: kids }
+}
+//@include spec/block_on.rs
+fn stub_ts_c01() -> u64 { 0 }
+/// k -> (method index 0..7, request for the registered path `/a` (hit) or `/b` (miss))
+fn handle_dispatch_body(k: usize) {
+    let router = Router { GET: tree(200), PUT: tree(201), POST: tree(202), PATCH: tree(203), DELETE: tree(205), OPTIONS: tree(206) };
+    let mut req = Request::init(std::net::IpAddr::V4(std::net::Ipv4Addr::new(127, 0, 0, 1)));
+    let (mi, hit) = (k % 7, k / 7 == 0);
+    req.method = match mi { 0 => Method::GET, 1 => Method::PUT, 2 => Method::POST, 3 => Method::PATCH, 4 => Method::DELETE, 5 => Method::OPTIONS, _ => Method::HEAD };
+    assert!(req.path.init_with_request_bytes(if hit { b"/a" } else { b"/b" }).is_ok());
+    let res = vsupport::block_on(router.handle(&mut req));
+    let want: u16 = if !hit { 404 } else { [200, 201, 202, 203, 205, 206, 200][mi] };
+    assert!(res.status.code() == want, "Router::handle: the handler registered for the request's method on the matching route runs (HEAD: the GET handler); no route => 404, no handler");
+    if mi == 6 {
+        assert!(matches!(res.content, Content::None), "Router::handle: HEAD is answered without a body");
+        assert!(matches!(res.headers.ContentLength(), Some("1")), "Router::handle: HEAD keeps the headers the GET handler declared");
+    } else if want != 205 {
+        assert!(matches!(&res.content, Content::Payload(p) if p.len() == 1), "Router::handle: the handler's body is delivered");
+    }
+    std::mem::forget(res); std::mem::forget(req); std::mem::forget(router);
+    kani::cover!(true);
+}
+//@chunks 14 c01_handle_dispatch handle_dispatch_body #[kani::proof] #[kani::unwind(12)] #[kani::stub(crate::util::unix_timestamp, stub_ts_c01)]
